@@ -243,6 +243,19 @@ func (e *Env) ident(name string) Val {
 	if m, ok := u.eng.lib.Macros[name]; ok && len(m.Params) == 0 {
 		return e.expandMacro(m, nil)
 	}
+	if e.fr != nil {
+		// a local that was renamed since the contracts were written (see locals.go)
+		if nn := renamedLocal(e.fr.fn.String(), e.fr.fn, name); nn != "" {
+			v, ok := e.vars[nn]
+			if !ok {
+				v, ok = e.fr.lookupLocal(nn, e)
+			}
+			if ok {
+				u.assumed[fmt.Sprintf("contract identifier %s of %s bound to the local now called %s (same type and declaration position as on the unchanged tree)", name, shortKey(e.fr.fn.String()), nn)] = true
+				return v
+			}
+		}
+	}
 	return e.fail("unknown identifier %s", name)
 }
 
